@@ -109,8 +109,12 @@ class Module:
                 kv.setdefault("engine", "kani")
                 kv["crate"] = self.crate
                 kv["module"] = self
-                kv["id"] = f"{self.crate}.{self.path.stem}.{kv['name']}"
-                self.obs.append(kv)
+                cfgs = kv["cfg"].split(",")
+                for c in cfgs:   # cfg=a,b : the same harness is an obligation under each listed configuration
+                    k2 = dict(kv)
+                    k2["cfg"] = c
+                    k2["id"] = f"{self.crate}.{self.path.stem}.{kv['name']}" + ("" if len(cfgs) == 1 else f"@{c}")
+                    self.obs.append(k2)
             i += 1
         for a in self.attrs:
             if a["file"] is None:
